@@ -95,7 +95,13 @@ func HarnessC08Route() {
 		r.AddHandler(name, subTopic, asSub, pubTopic, pub, fn)
 		return r.handlers[name], sub, pub, subTopic, pubTopic
 	}
-	name0 := vrt.PickStr("h0.name", "H0", "") // the empty handler name is legal
+	name0 := "H0"
+	switch vrt.Int("h0.name", 0, 2) {
+	case 1:
+		name0 = "" // the empty handler name is legal
+	case 2:
+		name0 = "h1" // differs from the other handler's name by letter case only
+	}
 	h0, sub0, p0, st0, pt0 := mk(0, name0)
 	h1, sub1, p1, st1, pt1 := mk(1, "H1")
 	// a handler-level middleware of handler 0 that marks its outputs: it must never run for handler 1
